@@ -185,7 +185,7 @@ type c25Verifier struct {
 	calls *atomic.Int64
 }
 
-func (v c25Verifier) WithServer(net.Addr) infra.Verifier        { return v }
+func (v c25Verifier) WithServer(net.Addr) infra.Verifier         { return v }
 func (v c25Verifier) WithValidity(cppki.Validity) infra.Verifier { return v }
 func (v c25Verifier) WithIA(ia addr.IA) infra.Verifier           { v.ia = ia; return v }
 func (v c25Verifier) Verify(_ context.Context, m *cryptopb.SignedMessage, ad ...[]byte) (*signed.Message, error) {
